@@ -59,9 +59,12 @@ def bestRun : List (Int × Nat) → Option (Int × Nat)
   | [] => none
   | p :: rest => some (rest.foldl (fun best q => if best.2 < q.2 then q else best) p)
 
+/-- The non-zero part of `correlate(x, y, "full")` as `(lag, value)`, lags increasing. -/
+def lagTable (A B : List Int) : List (Int × Nat) := rle ((diffs A B).mergeSort fun a b => decide (a ≤ b))
+
 /-- `np.argmax(correlate(x, y, "full")) - (N - 1)` and the value there: the smallest lag with the largest number of
 coincidences. -/
-def peakLag (A B : List Int) : Option (Int × Nat) := bestRun (rle ((diffs A B).mergeSort fun a b => decide (a ≤ b)))
+def peakLag (A B : List Int) : Option (Int × Nat) := bestRun (lagTable A B)
 
 /-- `parabolic_max(x)[0]` as in `SyncTs.parabolicPeak`, with integer position arguments. -/
 def parabolicPeakI (ns imax : Int) (v0 v1 v2 : Rat) : Rat :=
@@ -77,9 +80,23 @@ structure Coarse where
   v0 : Nat
   v1 : Nat
   v2 : Nat
+  /-- number of lags at which the correlation takes its maximal value (1 = the maximum is unique) -/
+  ties : Nat
   /-- `delta_t` -/
   delta : Rat
   deriving Repr
+
+/-- From the occupied bins on: `parabolic_max(scipy.signal.correlate(x, y, mode="full"))[0]` and
+`delta_t = (… - x.shape[0] + 1) * tbin`, for vectors of length `n` with occupied bins `A` (x) and `B` (y). -/
+def coarseOfBins (n : Int) (A B : List Int) (tbin : Rat) : Option Coarse :=
+  let tab := lagTable A B
+  match bestRun tab with
+  | none => none
+  | some (lag, c) =>
+    let v0 := corrAt A B (lag - 1)
+    let v2 := corrAt A B (lag + 1)
+    let imax := lag + n - 1
+    some ⟨n, lag, v0, c, v2, (tab.filter fun p => p.2 = c).length, deltaT (parabolicPeakI (2 * n - 1) imax (v0 : Rat) (c : Rat) (v2 : Rat)) n tbin⟩
 
 /--
     tmin = np.min([np.min(tsa), np.min(tsb)]);  tmax = np.max([np.max(tsa), np.max(tsb)])
@@ -87,21 +104,36 @@ structure Coarse where
     x[np.int32(np.floor((tsa - tmin) / tbin))] = 1;  y[np.int32(np.floor((tsb - tmin) / tbin))] = 1
     delta_t = (parabolic_max(scipy.signal.correlate(x, y, mode="full"))[0] - x.shape[0] + 1) * tbin
 
-`none` when a train is empty (`np.min` raises `ValueError`). -/
+with the quotients `(t - tmin) / tbin` taken over the rationals.  `none` when a train is empty (`np.min` raises
+`ValueError`). -/
 def coarse (tsa tsb : List Rat) (tbin : Rat) : Option Coarse :=
   if tsa = [] ∨ tsb = [] then none else
   match listMin (tsa ++ tsb), listMax (tsa ++ tsb) with
   | some tmin, some tmax =>
-    let n := nbins tmin tmax tbin
-    let A := occupied tmin tbin tsa
-    let B := occupied tmin tbin tsb
-    match peakLag A B with
-    | none => none
-    | some (lag, c) =>
-      let v0 := corrAt A B (lag - 1)
-      let v2 := corrAt A B (lag + 1)
-      let imax := lag + n - 1
-      some ⟨n, lag, v0, c, v2, deltaT (parabolicPeakI (2 * n - 1) imax (v0 : Rat) (c : Rat) (v2 : Rat)) n tbin⟩
+    coarseOfBins (nbins tmin tmax tbin) (occupied tmin tbin tsa) (occupied tmin tbin tsb) tbin
+  | _, _ => none
+
+/-! The same with the quotients `(t - tmin) / tbin`, `floor` and `ceil` executed in IEEE double precision, as NumPy does
+(`Float` is the IEEE type): an event exactly on a bin boundary — e.g. whole seconds with `tbin = 0.1`, whose double is a
+little above 1/10 — lands in the bin the floating-point quotient says.  Every time is the exact value of a double, so the
+conversion is exact.  Used by the driver for the comparison with the code; the theorems are about the rational binning,
+and the driver reports whether both agree. -/
+
+/-- The double with the value `r` (exact when `r` is the value of a double). -/
+def toF (r : Rat) : Float := Float.ofInt r.num / Float.ofNat r.den
+
+def binIndexF (tmin tbin t : Float) : Int := (Float.floor ((t - tmin) / tbin)).toInt64.toInt
+
+def nbinsF (tmin tmax tbin : Float) : Int := (Float.ceil ((tmax - tmin) / tbin)).toInt64.toInt + 1
+
+def occupiedF (tmin tbin : Float) (ts : List Rat) : List Int := dedup (ts.map fun t => binIndexF tmin tbin (toF t))
+
+def coarseF (tsa tsb : List Rat) (tbin : Rat) : Option Coarse :=
+  if tsa = [] ∨ tsb = [] then none else
+  match listMin (tsa ++ tsb), listMax (tsa ++ tsb) with
+  | some tmin, some tmax =>
+    coarseOfBins (nbinsF (toF tmin) (toF tmax) (toF tbin)) (occupiedF (toF tmin) (toF tbin) tsa)
+      (occupiedF (toF tmin) (toF tbin) tsb) tbin
   | _, _ => none
 
 /-- `threshold = tbin`: the window of the first pass is one bin on either side. -/
@@ -182,8 +214,8 @@ inductive Closed where
 /-- `sync_timestamps(tsa, tsb, tbin, return_indices=True, linear=linear)`: the coarse offset, the first pass at
 `threshold = tbin` around it, `_interp_fcn` on the first-pass matches (same mode: `linear=linear` is bound as the default of
 the inner function), the second pass within `tbin` of that map, `_interp_fcn` on all matches. -/
-def syncClosed (tsa tsb : List Rat) (tbin : Rat) (linear : Bool) : Closed :=
-  match coarse tsa tsb tbin with
+def syncClosedOf (co : Option Coarse) (tsa tsb : List Rat) (tbin : Rat) (linear : Bool) : Closed :=
+  match co with
   | none => .errValueError
   | some c =>
     let ib1 := pass1 c.delta (threshold tbin) tsa tsb
@@ -195,5 +227,13 @@ def syncClosed (tsa tsb : List Rat) (tbin : Rat) (linear : Bool) : Closed :=
       match fitAb nodes with
       | none => .undetermined
       | some ab => .ok (pairs ib) (driftPpm ab.1) nodes c
+
+/-- The whole function over the rationals. -/
+def syncClosed (tsa tsb : List Rat) (tbin : Rat) (linear : Bool) : Closed :=
+  syncClosedOf (coarse tsa tsb tbin) tsa tsb tbin linear
+
+/-- The whole function with the binning quotients in double precision (what the driver runs against the code). -/
+def syncClosedF (tsa tsb : List Rat) (tbin : Rat) (linear : Bool) : Closed :=
+  syncClosedOf (coarseF tsa tsb tbin) tsa tsb tbin linear
 
 end IblVerif.SyncTs
